@@ -61,11 +61,11 @@ Section Frame.
     st' = st /\ only (role_event r) t.
   Proof.
     unfold create_violation_error, bindM, emit, throw, ret. intros H.
-    destruct (cerror c) as [|k|e|eargs].
+    destruct (cerror c) as [|k|e|eargs emand].
     - destruct (clambda c); [destruct (select _ _ _)|]; finish_frame H r.
     - destruct (clambda c); [destruct (select _ _ _)|]; finish_frame H r.
     - finish_frame H r.
-    - destruct (select eargs eargs resolved) as [kw|]; cbn in H;
+    - destruct (select eargs emand resolved) as [kw|]; cbn in H;
         try (match type of H with context [u_error ?a ?b ?c] => destruct (u_error a b c) end);
         finish_frame H r.
   Qed.
